@@ -4,6 +4,8 @@
 (* said and did:                                                               *)
 (*   len      Msg.Len() under that setting      ulen   Msg.Len() uncompressed  *)
 (*   packed / packerr / packlen   Pack() and the number of octets it produced  *)
+(*   stable   the Pack() above ran right after a FAILED Pack() of a message     *)
+(*            with the same names (Compress only); a second Pack() agreed       *)
 (*   rrlen    per record <<Len(rr), octets PackRR produced>>                   *)
 (*   probes   PackBuffer with buffers of 0, U, U+1, U+2, 2U octets:            *)
 (*            [n, err, same (as Pack()), inplace (result aliases the buffer)]  *)
@@ -40,6 +42,7 @@ Stage(e) ==
   ELSE IF ~e.packed THEN (IF e.packerr = "ErrBuf" THEN "pack-errbuf" ELSE IF MayRefuse(m) THEN "ok" ELSE "pack-error")
   ELSE IF ~e.compress /\ e.packlen # LenMsg(m) THEN "uncompressed-length"
   ELSE IF e.compress /\ e.packlen > LenMsg(m) THEN "compressed-longer"
+  ELSE IF ~e.stable THEN "pack-unstable"               \* packed right after a failed Pack of the same names; packed again: same octets
   ELSE IF e.len < e.packlen THEN "underestimate"
   ELSE IF PlainMsg(m) /\ e.len # e.packlen THEN "inexact"
   ELSE IF Len(e.rrlen) # Len(rrs) THEN "rr-count"
